@@ -32,7 +32,9 @@ def case_strategy(combo_list):
         t = gm.library()[c["mat"]][0] if c["mat"] in gm.library() else "monolayer"
         by_type.setdefault(t, []).append(c)
     types = sorted(by_type)
-    return st.fixed_dictionaries({"combo": st.sampled_from(types).flatmap(lambda t: st.sampled_from(by_type[t])), "pres": gm.presentations()})
+    stratified = st.sampled_from(types).flatmap(lambda t: st.sampled_from(by_type[t]))
+    # half of the cases uniformly over all combinations (weights the many elemental fcc/bcc/hcp crystals), half by type
+    return st.fixed_dictionaries({"combo": st.one_of(st.sampled_from(combo_list), stratified), "pres": gm.presentations()})
 
 
 def item_strategy(combo):
